@@ -288,7 +288,7 @@ func genCase(rt *rapid.T) poolCase {
 
 func TestPoolHistories(t *testing.T) {
 	sec := vk.Sec("PoolHistories")
-	vk.Check(t, 20000, 1000000, func(rt *rapid.T) {
+	vk.Check(t, 20000, 10000000, func(rt *rapid.T) {
 		c := genCase(rt)
 		out, err := runPool(t, c)
 		if err != nil {
@@ -318,7 +318,7 @@ func TestPoolHistories(t *testing.T) {
 func TestPoolSweep(t *testing.T) {
 	sec := vk.Sec("PoolSweep")
 	menu := []op{{Kind: "end", I: 0}, {Kind: "end", I: 1}, {Kind: "end", I: 2}, {Kind: "end", I: 3}, {Kind: "add"}, {Kind: "add", Ended: true}, {Kind: "cancel"}, {Kind: "cancel+add"}}
-	depth := vk.Pick(4, 5)
+	depth := vk.Pick(4, 6)
 	idx := 0
 	var inits [][]bool
 	for n := 0; n <= 3; n++ {
